@@ -9,7 +9,8 @@ RULE = ("engine proc: the real Processor in lock-step (trackProgress) with a scr
         "until answered; histories of 1-3 applications: transactions (real flatbuffers through processBinary/AggregateInto), harvest "
         "triggers with every mask (all, default data, single and combined event categories), replies in any order relative to later "
         "events, restarts, agent queries, clock advances, final CleanExit. Non-trivial = history contains transactions, a trigger and a "
-        "reply; distinct = distinct op lists.")
+        "reply; distinct = distinct op lists."
+        " One history with 250 applications (the table limit), one of them disconnected for good, then more applications asking.")
 ASSUMPTIONS = ['run ids issued by the collector are distinct; a second connect attempt in flight for one application (back-off expired while the first is unanswered) is exercised by the `ov` histories, more than two are not', 'daemon-generated metrics other than the Seen/Sent/Dropped rows are filtered out of the comparison', 'a harvest trigger for a run that has already been shut down is not generated', 'time is advanced by shifting lastConnectAttempt/LastActivity; whole-second advances only']
 EXPLANATION = "L2 processor machine in Lean; every request the real processor makes is compared with the model's; the exactly-once ledger Spec runs on the implementation's requests."
 TECHNIQUE = 'Lean 4 theorems about the application state machine inside the L2 model (terminal states, still-valid iff run held, retry after back-off) + lock-step correspondence with the real Processor and a lifecycle monitor evaluated on its replies and connect requests'
